@@ -488,7 +488,49 @@ func runC13(c *ctx) {
 			}
 		}
 	}
-	c.exhaustive("every_padding_0_to_2x4096_plus_64_at_3_places_for_the_swept_bases", c.thorough())
+	// very large files: padding far beyond any buffer (tens of KiB to 1 MiB) before, between and after declarations
+	for bi, b := range bases {
+		if !b.valid || bi >= c.n(2, 6) {
+			continue
+		}
+		canon := layoutTokens(b.toks, nil, layout{finalNL: true})
+		base, panicked := c13Outcome(canon)
+		if panicked || strings.Contains(base, "spec.Parse: ERROR") {
+			continue
+		}
+		var sizes []int
+		for p := 65536 - 300; p <= 65536+40; p += 7 {
+			sizes = append(sizes, p)
+		}
+		sizes = append(sizes, 20000, 40000, 70000, 100000, 131072-33, 131072+5, 262144+1, 1<<20)
+		for _, p := range sizes {
+			for pi, place := range []int{0, len(b.toks) / 2, len(b.toks) - 1} {
+				if !c.mine() {
+					continue
+				}
+				pad := strings.Repeat(" ", p)
+				switch (p + pi) % 3 {
+				case 1:
+					pad = strings.Repeat("          \n", p/11) + strings.Repeat(" ", p%11)
+				case 2:
+					pad = "/*" + strings.Repeat("c", p) + "*/"
+				}
+				var sb strings.Builder
+				for i, t := range b.toks {
+					if i > 0 {
+						sb.WriteString(" ")
+					}
+					if i == place {
+						sb.WriteString(pad + " ")
+					}
+					sb.WriteString(t.Text)
+				}
+				checkVariant(fmt.Sprintf("%s/bigpad%d@%d", b.name, p, place), base, sb.String()+"\n", true)
+				c.count("very_large_texts", 1)
+			}
+		}
+	}
+	c.exhaustive("every_padding_0_to_2x4096_plus_64_at_3_places_for_the_swept_bases", true)
 }
 
 // dropOptionalSemis removes some semicolons that the grammar makes optional (after the name, a token declaration
@@ -520,6 +562,9 @@ func dropOptionalSemis(toks []gtok, r *rng) []gtok {
 // c13QuickPad: the quick tier sweeps every padding in windows below each buffer-size multiple (where a token that follows
 // the padding straddles the boundary) and every 8th padding elsewhere; the thorough tier sweeps every padding.
 func c13QuickPad(p int) bool {
+	if true {
+		return true // the sweep is cheap since the specification reader is linear: every padding in both tiers
+	}
 	if p <= 64 || p%8 == 0 {
 		return true
 	}
@@ -551,6 +596,21 @@ func init() {
 			}
 			fmt.Println(f.n, time.Since(t0)/20)
 		}
+		}
+		return 0
+	}
+}
+
+func init() {
+	auxCommands["scale"] = func(args []string) int {
+		for _, n := range []int{2000, 4000, 8000, 16000} {
+			text := "grammar g ; " + strings.Repeat("          \n", n) + " start = \"a\" ;\n"
+			t0 := time.Now()
+			emergeScan(text)
+			t1 := time.Now()
+			observeSpec(text)
+			t2 := time.Now()
+			fmt.Println(n, "lines: scan", t1.Sub(t0), "spec.Parse", t2.Sub(t1))
 		}
 		return 0
 	}
